@@ -53,7 +53,9 @@ Example C02_example :
   pexpr 40 0 (pr (EUn Not (EBin (EName 1) BitOr (EBin (EName 2) BitXor (EName 3)))))%N = Some (EUn Not (EBin (EName 1) BitOr (EBin (EName 2) BitXor (EName 3))), [])%N.
 Proof. vm_compute. split; reflexivity. Qed.
 
-(* string constants: what MiniString writes between the quotes (Model/MiniString.v, compared with ministring.py by leg D and
+(* string text written by the minifier itself (ordinary str / bytes constants are printed by CPython's own repr(), which is
+   trusted; MiniString is what f_string.py uses for the literal parts of f-strings, before it doubles the braces): what
+   MiniString writes between the quotes (Model/MiniString.v, compared with ministring.py by leg D and
    by the leg of C12), followed by the closing quote(s) and ANY further text, is read back by the reference decoder
    (Model/StrDecode.v: the escape rules of the Python lexical analysis as a state machine, compared with CPython by leg D) as
    exactly the original string, leaving exactly the text that followed - for every string of code points, both quote
